@@ -10,6 +10,7 @@ import (
 	"strings"
 	"time"
 
+	"github.com/Syuparn/pangaea/object"
 	seam "github.com/Syuparn/pangaea/verifseam"
 
 	"verifsim/gen"
@@ -22,22 +23,23 @@ import (
 //     + S3 start-up under seeded goroutine schedules (SCHED): same built-ins, same probe results.
 
 type C08Stats struct {
-	CF         *CFStats        `json:"cf"`
-	S2Programs int             `json:"s2_programs"`
-	S2Evals    int             `json:"s2_evaluations"`
-	S2Policies map[string]int  `json:"s2_policies"`
-	S2Sites    map[string]int  `json:"s2_map_range_sites_hit"`
-	S2Perms    map[string]bool `json:"-"`
-	S2PermKeys []string        `json:"s2_perm_keys"`
-	S2Permuted int64           `json:"s2_map_ranges_permuted"`
-	S3Runs     int             `json:"s3_startup_schedules"`
-	S3Scheds   map[string]bool `json:"-"`
-	S3Keys     []string        `json:"s3_sched_keys"`
-	S3Switches int64           `json:"s3_switches"`
-	S3MapOrd   int             `json:"s3_with_permuted_map_order"`
-	Infra      int             `json:"infra_errors"`
-	InfraMsgs  []string        `json:"infra_msgs"`
-	Samples    []interface{}   `json:"samples"`
+	CF          *CFStats        `json:"cf"`
+	S2Programs  int             `json:"s2_programs"`
+	S2Evals     int             `json:"s2_evaluations"`
+	S2Policies  map[string]int  `json:"s2_policies"`
+	S2Sites     map[string]int  `json:"s2_map_range_sites_hit"`
+	S2Perms     map[string]bool `json:"-"`
+	S2PermKeys  []string        `json:"s2_perm_keys"`
+	S2Permuted  int64           `json:"s2_map_ranges_permuted"`
+	S2HistLines int             `json:"s2_history_lines"`
+	S3Runs      int             `json:"s3_startup_schedules"`
+	S3Scheds    map[string]bool `json:"-"`
+	S3Keys      []string        `json:"s3_sched_keys"`
+	S3Switches  int64           `json:"s3_switches"`
+	S3MapOrd    int             `json:"s3_with_permuted_map_order"`
+	Infra       int             `json:"infra_errors"`
+	InfraMsgs   []string        `json:"infra_msgs"`
+	Samples     []interface{}   `json:"samples"`
 }
 
 func newC08Stats() *C08Stats {
@@ -60,20 +62,21 @@ func (s *C08Stats) MarshalJSON() ([]byte, error) {
 }
 func (s *C08Stats) Merge(raw json.RawMessage) error {
 	var aux struct {
-		CF         json.RawMessage `json:"cf"`
-		S2Programs int             `json:"s2_programs"`
-		S2Evals    int             `json:"s2_evaluations"`
-		S2Policies map[string]int  `json:"s2_policies"`
-		S2Sites    map[string]int  `json:"s2_map_range_sites_hit"`
-		S2PermKeys []string        `json:"s2_perm_keys"`
-		S2Permuted int64           `json:"s2_map_ranges_permuted"`
-		S3Runs     int             `json:"s3_startup_schedules"`
-		S3Keys     []string        `json:"s3_sched_keys"`
-		S3Switches int64           `json:"s3_switches"`
-		S3MapOrd   int             `json:"s3_with_permuted_map_order"`
-		Infra      int             `json:"infra_errors"`
-		InfraMsgs  []string        `json:"infra_msgs"`
-		Samples    []interface{}   `json:"samples"`
+		CF          json.RawMessage `json:"cf"`
+		S2Programs  int             `json:"s2_programs"`
+		S2Evals     int             `json:"s2_evaluations"`
+		S2Policies  map[string]int  `json:"s2_policies"`
+		S2Sites     map[string]int  `json:"s2_map_range_sites_hit"`
+		S2PermKeys  []string        `json:"s2_perm_keys"`
+		S2Permuted  int64           `json:"s2_map_ranges_permuted"`
+		S2HistLines int             `json:"s2_history_lines"`
+		S3Runs      int             `json:"s3_startup_schedules"`
+		S3Keys      []string        `json:"s3_sched_keys"`
+		S3Switches  int64           `json:"s3_switches"`
+		S3MapOrd    int             `json:"s3_with_permuted_map_order"`
+		Infra       int             `json:"infra_errors"`
+		InfraMsgs   []string        `json:"infra_msgs"`
+		Samples     []interface{}   `json:"samples"`
 	}
 	if err := json.Unmarshal(raw, &aux); err != nil {
 		return err
@@ -84,6 +87,7 @@ func (s *C08Stats) Merge(raw json.RawMessage) error {
 	s.S2Programs += aux.S2Programs
 	s.S2Evals += aux.S2Evals
 	s.S2Permuted += aux.S2Permuted
+	s.S2HistLines += aux.S2HistLines
 	s.S3Runs += aux.S3Runs
 	s.S3Switches += aux.S3Switches
 	s.S3MapOrd += aux.S3MapOrd
@@ -112,6 +116,7 @@ func (s *C08Stats) Merge(raw json.RawMessage) error {
 type c08Check struct {
 	it    *harness.Interp
 	tier  string
+	hist  *c06Check
 	refFP string   // start-up fingerprint of this (unscheduled) process
 	refPr []string // probe results of this process
 }
@@ -302,7 +307,101 @@ func (c *c08Check) Run(seed, run uint64, rec []uint32, st Stats, only *Viol) []V
 	}
 }
 
+// stage2Hist: a free-form history over built-in properties (the C06 generator) is
+// recorded under the canonical map order and replayed line by line under permuted
+// orders; every line must give the same result.
+func (c *c08Check) stage2Hist(seed, run uint64, t *tape.Tape, s *C08Stats, stage int) []Viol {
+	if c.hist == nil {
+		c.hist = &c06Check{it: c.it}
+		c.hist.Init(c.tier)
+	}
+	var lines []c06Line
+	c.hist.runHist(seed, run, t, newC06Stats(), &lines)
+	if len(lines) == 0 {
+		return nil
+	}
+	s.S2Programs++
+	s.S2HistLines += len(lines)
+	replay := func(pol *mapPolicy) []string {
+		env := object.NewEnclosedEnv(c.it.Global)
+		out := make([]string, len(lines))
+		for i, l := range lines {
+			prog, err := harness.Parse(l.Src)
+			if err != nil {
+				out[i] = "PARSE"
+				continue
+			}
+			seam.MapOrder = pol.order
+			seam.SetFuel(200000)
+			r := c.it.RunIn(prog, &harness.Callee{Plan: l.Plan, Limit: 5000}, env)
+			seam.SetFuel(0)
+			seam.MapOrder = nil
+			out[i] = describeResult(r) + " | stdout=" + clipStr(r.Stdout, 200)
+		}
+		return out
+	}
+	base := replay(&mapPolicy{kind: "identity"})
+	s.S2Evals += len(lines)
+	for i := 0; i < 3; i++ {
+		pol := &mapPolicy{hits: map[string]int{}}
+		switch t.Pick(2, 2, 3) {
+		case 0:
+			pol.kind = "reverse"
+		case 1:
+			pol.kind = "rotate"
+			pol.rot = 1 + t.Intn(7)
+		default:
+			pol.kind = "random"
+			pol.seed = uint64(t.U32())<<32 | uint64(t.U32())
+		}
+		got := replay(pol)
+		s.S2Evals += len(lines)
+		s.S2Policies[pol.kind]++
+		s.S2Permuted += pol.permuted
+		for k, v := range pol.hits {
+			s.S2Sites[k] += v
+		}
+		s.S2Perms[fmt.Sprintf("%x", sha1.Sum(pol.sig))[:16]] = true
+		for j := range lines {
+			if got[j] == base[j] {
+				continue
+			}
+			// attribute: which site, reversed alone, changes this history?
+			var need []string
+			sites := make([]string, 0, len(pol.hits))
+			for k := range pol.hits {
+				sites = append(sites, k)
+			}
+			sort.Strings(sites)
+			for _, site := range sites {
+				g2 := replay(&mapPolicy{kind: "reverse", only: map[string]bool{site: true}})
+				for k := range g2 {
+					if g2[k] != base[k] {
+						need = append(need, site)
+						break
+					}
+				}
+			}
+			sig := "C08/maporder/" + strings.Join(need, "+")
+			if len(need) == 0 {
+				sig = "C08/maporder/unattributed"
+			}
+			var hist []string
+			for k := 0; k <= j; k++ {
+				hist = append(hist, lines[k].Src)
+			}
+			return []Viol{{Prop: "C08", Run: run, Seed: seed, Tape: append([]uint32(nil), t.Rec...), Engine: "mapseam", Signature: sig,
+				Derived:  map[string]interface{}{"stage": stage, "history": hist, "policy": pol.kind, "responsible_map_range_sites": need, "differs_at_line": lines[j].Src},
+				Expected: map[string]interface{}{"canonical_order": base[j]}, Actual: map[string]interface{}{"permuted_order": got[j]}}}
+		}
+	}
+	return nil
+}
+
 func (c *c08Check) stage2(seed, run uint64, t *tape.Tape, s *C08Stats, stage int) []Viol {
+	if stage%4 == 0 {
+		return c.stage2Hist(seed, run, t, s, stage)
+	}
 	var src string
 	var defaults map[int]harness.Ret
 	if t.Chance(1, 3) {
